@@ -21,7 +21,7 @@ ASSUMPTIONS = [
     'stop() from a second thread is given no exit code (SystemExit would be raised in that thread, not in run()\'s caller)',
     'a harness generate_events handler keeps the idle wait from blocking and ends a run that ignores stop() after 400 further iterations',
 ]
-REQUIRED = ['systemexit_with_a_code_after_the_manager_had_been_stopped', 'sched_stop_runs_to_completion_at_a_loop_preemption_point', 'sched_stopper_preempted_while_loop_sleeps', 'stop_in_started', 'stop_mid_chain', 'stop_in_generator_step', 'stop_via_systemexit', 'stop_via_keyboardinterrupt',
+REQUIRED = ['sched_stop_at_any_point_with_events_still_pending', 'systemexit_with_a_code_after_the_manager_had_been_stopped', 'sched_stop_runs_to_completion_at_a_loop_preemption_point', 'sched_stopper_preempted_while_loop_sleeps', 'stop_in_started', 'stop_mid_chain', 'stop_in_generator_step', 'stop_via_systemexit', 'stop_via_keyboardinterrupt',
             'stop_from_second_thread', 'exit_code_given', 'events_fired_after_stop', 'stopped_handler_fires', 'queued_before_run',
             'second_cycle', 'stop_when_not_running', 'stop_of_registered_child_while_root_runs', 'systemexit_while_not_running',
             'several_exits_in_one_run', 'codeless_exit_next_to_a_coded_one', 'loop_iteration_with_events_still_queued', 'handler_failed_before_the_stop',
@@ -453,6 +453,12 @@ def plan(tier, seed):
         # ... and the other way round: the loop sleeps in its idle wait, the second thread's stop() is pre-empted after EVERY one of its
         # yield points (in particular between queueing `stopped` and clearing the running flag), the loop runs until it blocks again
         sched += [{'kind': 'sched', 'scn': scn, 'lo': 0, 'hi': 0, 'step': 1, 'a1s': ['INF'], 'ks': list(range(k0, k0 + 40))} for k0 in (1, 41, 81, 121)]
+    # stop() whenever the schedule says so (the stopper does not wait for the fired events to be dispatched first: they are still pending or
+    # being dispatched): it runs to completion at EVERY yield point of the loop thread's iterations - in particular inside the hand-over of
+    # the pending events to the dispatch pass; `stopped` and the pending events are dispatched all the same
+    for mech in ('fallback',) if tier == 'quick' else ('fallback', 'Select', 'EPoll'):
+        scn = {'mech': mech, 'firers': 1, 'events': 2, 'task': True, 'stop_any_time': True}
+        sched += [{'kind': 'sched', 'scn': scn, 'lo': lo, 'hi': lo + 200, 'step': 1, 'ks': ['INF']} for lo in (0, 200, 400, 600, 800, 1000)]
     if tier == 'quick':
         return [{'kind': 'corpus'}] + [{'kind': 'random', 'seed': seed * 1000 + i, 'n': 40} for i in range(15)] + sched
     return [{'kind': 'corpus'}] + [{'kind': 'random', 'seed': seed * 100000 + i, 'n': 700} for i in range(32)] + sched
@@ -571,7 +577,15 @@ def run_sched_batch(spec):
             b.reached('sched_foreign_stop_schedules')
             if preempted:
                 b.reached('sched_stopper_preempted_inside_stop')
-            if res['stop_dispatched_when_run_returned']:
+            undisp = [kk for kk in res.get('fired', {}) if kk != 'stop' and kk not in {str(tuple(d)) if not isinstance(d, str) else d for d in res['dispatched']}]
+            if scn.get('stop_any_time'):
+                b.reached('sched_stop_at_any_point_with_events_still_pending')
+            if res['stop_dispatched_when_run_returned'] and scn.get('stop_any_time') and undisp:
+                # `stopped` was dispatched, but an event whose fire() had returned before stop() was called never was
+                shown += 1
+                b.fail(case, 'DRAINED', {'note': 'run() returned although events fired (from another thread) before the foreign stop() were never dispatched',
+                                         'never_dispatched': undisp[:4], 'switches': [list(x) for x in res['switches'][-6:]]}, dedup='sched-drained')
+            elif res['stop_dispatched_when_run_returned']:
                 b.ok('STOPPED_ONCE')
                 b.ok('DRAINED')
             else:
